@@ -2,6 +2,7 @@ package rules
 
 import (
 	"fmt"
+	"go/constant"
 	"go/token"
 	"go/types"
 	"sort"
@@ -436,6 +437,21 @@ func C17(c *core.Ctx) {
 		}
 	}
 	c.Check("R4", "timers-reachable-from-tables", token.NoPos, reg, "a transmit transaction is stored in its table before send() starts its timer, so stopTrTimers reaches every live timer (C09 R4)")
+	// ... and an entry leaves its table only where its timer is stopped or has just fired: a transaction
+	// dropped from the table elsewhere keeps an armed timer that Stop cannot find (it then fires into the
+	// closed timeout channel)
+	if a := getTxAnchors(c, "R4"); a.ok {
+		checkTableDeleters(c, "R4", a.txTrans, map[*ssa.Function]bool{a.txRecv: true, a.txTimeout: true}, "transmit-table entries are removed only by recv (timer stopped) and the last timeout (timer fired)")
+		checkTableDeleters(c, "R4", a.rxTrans, map[*ssa.Function]bool{a.rxTimeout: true}, "receive-table entries are removed only by the retention timeout (timer fired)")
+		// recv stops the timer before it forgets the transaction
+		stopped := false
+		for _, ci := range core.CallsMatching(a.txRecv, func(f *types.Func) bool { return f.Name() == "Stop" && f.Pkg() != nil && f.Pkg().Path() == "time" }) {
+			if all, _ := dominatesReturns(ci.(ssa.Instruction)); all {
+				stopped = true
+			}
+		}
+		c.Check("R4", "recv-stops-timer", a.txRecv.Pos(), stopped, "TxTransaction.recv stops the retransmission timer on every path")
+	}
 }
 
 // constructorOnly: fn is reachable from main only on paths that do not pass through PfcpServer.Start.
@@ -635,6 +651,11 @@ func C18(c *core.Ctx) {
 		if o.Kind == "send" && o.Blocking && strings.HasPrefix(ch, "field:internal/pfcp.PfcpServer.") {
 			c.Check("R2", "self-wait:"+short(ch)+":"+core.FnName(o.Fn), o.Instr.Pos(), false, "the event loop itself can block sending on its own input channel "+short(ch)+" (nobody else drains it)")
 		}
+		// the event loop waits for nothing but its own select: in particular no plain receive from a timer's
+		// C (the transaction timers are time.AfterFunc timers, whose C is nil: such a receive never returns)
+		if o.Kind == "recv" && o.Blocking && !o.Multi && p.IsOwnFn(o.Fn) && strings.HasPrefix(ch, "field:time.") {
+			c.Check("R2", "timer-wait:"+core.FnName(o.Fn), o.Instr.Pos(), false, "the event loop blocks receiving from "+short(ch)+"; the transaction timers are created by time.AfterFunc (C == nil), and any wait here stalls every peer")
+		}
 		if strings.HasPrefix(ch, "elem:[]byte") && (o.Kind == "send" || o.Kind == "recv") {
 			c.Check("R2", "queue-nonblocking:"+o.Kind+":"+core.FnName(o.Fn), o.Instr.Pos(), !o.Blocking, "per-PDR packet queues are only touched with select/default (the event loop is their only producer and consumer)")
 		}
@@ -712,6 +733,44 @@ func netlinkClientOwnership(c *core.Ctx, rule string) {
 		})
 	}
 	c.Floor(rule, n, 3, "netlink requests in functions shared by the event loop and the periodic server")
+	// who passes which flag: the periodic server's goroutine reaches the shared query functions only with
+	// ps == true, every other goroutine only with ps == false (call graph through the registered callback)
+	classes := p.GoroutineClasses()
+	m := 0
+	for _, name := range []string{"queryMultiURR", "queryURR"} {
+		target := p.Method(pkgFwd, "Gtp5g", name)
+		if target == nil {
+			continue
+		}
+		for _, fn := range p.OwnFuncs() {
+			for _, ci := range core.Calls(fn, target) {
+				args := core.CallArgs(ci)
+				flag := args[len(args)-1]
+				k, isConst := flag.(*ssa.Const)
+				cs := core.ClassesOf(classes, fn)
+				perio, other := false, false
+				for _, cl := range cs {
+					if cl == "PERIO" {
+						perio = true
+					} else {
+						other = true
+					}
+				}
+				m++
+				if !isConst {
+					// forwarded parameter: the forwarding function is judged at its own call sites
+					_, isParam := flag.(*ssa.Parameter)
+					c.Check(rule, fmt.Sprintf("ps-flag:%s->%s", core.FnName(fn), name), ci.Pos(), isParam, "the ps flag is a constant or the caller's own ps parameter")
+					continue
+				}
+				ps := constant.BoolVal(k.Value)
+				good := (ps && perio && !other) || (!ps && !perio)
+				c.Check(rule, fmt.Sprintf("ps-flag:%s->%s", core.FnName(fn), name), ci.Pos(), good,
+					fmt.Sprintf("%s calls %s with ps=%v and runs on %v: the periodic server's goroutine must use ps=true (its own netlink connection) and nobody else may", core.FnName(fn), name, ps, cs))
+			}
+		}
+	}
+	c.Floor(rule, m, 2, "call sites of the ps-flagged query functions")
 }
 
 func fieldLoads(fn *ssa.Function, f *types.Var) []*ssa.UnOp {
